@@ -1277,6 +1277,17 @@ def check(ctx):
     r3.require_floor(24, "constructor renderings")
     rules.append(r3)
 
+    # ---------------------------------------------------------------- D5: the module on disk is the rendered text, nothing more
+    r5 = Rule("C01-D5-whole-file-replacement", "D5",
+              "the generated modules are written by whole-file replacement: fs::write, or a handle opened with truncate and written with write_all "
+              "(rule shared with C14-D5 and C17-D2)",
+              "a handle opened without truncate keeps the tail of a longer previous generation behind the new text: the file on disk is not the well-formed text that was rendered")
+    from rulelib import check_whole_file_writes
+    from mirlib import ENTRY_POINTS as _EP
+    check_whole_file_writes(ctx.P, r5, ctx.P.reachable(_EP), scope=lambda fid: "::generators::" in fid, what="generated module")
+    r5.require_floor(1, "generated-module write sites")
+    rules.append(r5)
+
     return finish(
         PROP, ctx, rules,
         "Lexical structure and bracket nesting of every template control path, sink typing of every interpolation against the characters the filling Rust "
